@@ -71,3 +71,32 @@ pub(crate) fn stub_signature_new<const N: usize>(_rng: &mut impl Rng, _kp: &KeyP
 pub(crate) fn is_stub_public_key(pk: &PublicKey<1>) -> bool {
     pk.g1 == G1Affine::generator() && pk.g2 == G2Affine::generator() && pk.x2 == G2Affine::generator() && pk.y1s[0] == G1Affine::generator() && pk.y2s[0] == G2Affine::generator()
 }
+
+// ---- every secret scalar is a draw of its own (tagged RNG stub): x and the y_i are pairwise different draws
+static mut NTAG: u64 = 0;
+fn stub_wide_tagged(_b: &[u8; 64]) -> Scalar { unsafe { NTAG += 1; core::mem::transmute::<[u64; 4], Scalar>([NTAG, 0x7a67, 0, 0]) } }
+fn tag_of(s: &Scalar) -> u64 {
+    let l = unsafe { core::mem::transmute::<Scalar, [u64; 4]>(*s) };
+    if l[1] == 0x7a67 && l[2] == 0 && l[3] == 0 { l[0] } else { 0 }
+}
+macro_rules! sk_own_draws_harness {
+    ($name:ident, $n:literal) => {
+        #[kani::proof]
+        #[kani::unwind(7)]
+        #[kani::stub(bls12_381::Scalar::from_bytes_wide, stub_wide_tagged)]
+        fn $name() {
+            let (x, ys) = vx_kani_sk_scalars::<$n>(&mut KRng, &G1Projective::generator());
+            assert!(tag_of(&x) >= 1);
+            let mut i = 0;
+            while i < $n {
+                assert!(tag_of(&ys[i]) >= 1);
+                assert!(tag_of(&ys[i]) != tag_of(&x));
+                let mut j = 0;
+                while j < i { assert!(tag_of(&ys[i]) != tag_of(&ys[j])); j += 1; }
+                i += 1;
+            }
+        }
+    };
+}
+sk_own_draws_harness!(secret_key_scalars_own_draws_n2, 2);
+sk_own_draws_harness!(secret_key_scalars_own_draws_n3, 3);
